@@ -162,6 +162,12 @@ func (e *lockupEnv) keeperTail(steps int, lastID *uint64, ms lockuptypes.MsgServ
 			clusterDenom = base[r.Intn(len(base))]
 		}
 		clusterSD = clusterDenom + suffixes[r.Intn(3)]
+		for _, real := range e.denoms { // never the name of a real denomination of the alphabet (see synthcreate below)
+			if real == clusterSD {
+				clusterSD = clusterDenom + "/superbonding/v3"
+				o.Count("tail.cluster.name-of-a-real-denom-avoided")
+			}
+		}
 		steps += clusterLeft + 2
 		o.Count("tail.cluster.histories")
 	}
